@@ -20,7 +20,8 @@ LEVEL = 'exploration'
 RULE = ('Hypothesis programs (1-6 statements) over the identifiers len, sum, x, y, k bound as builtin, host/top-level name '
         'and lambda parameter/local at once; nested and re-entrant lambda calls through call(), map, sorted, reduce; calls '
         'that raise inside map/filter/reduce and under a swallowing host safe() after which the program continues; '
-        'statement-bodied lambdas through ast_names (assignment and compound assignment in a call); tiny host mappings '
+        'statement-bodied lambdas through ast_names (assignment and compound assignment in a call; with one parameter or none, '
+        'called at top level, from a lambda, from map and from a host callback); tiny host mappings '
         'equal to a parameter binding; evals without a names mapping; lambdas carried into a second names mapping; host '
         'invocation of program lambdas after eval. Oracle: reference scope model (value, error class, final names) + the '
         'builtin table keeps the same keys and identical values + no parameter/local leaks. Non-trivial: a name bound at '
@@ -64,7 +65,7 @@ def eval_impl(src, names, ast_body, use_names=True):
     ast_i = None
     if ast_body:
         from smartquery.ast_ops import LambdaOp, NameOp
-        ast_i = {'h': LambdaOp([NameOp('a')], p.parse(ast_body))}
+        ast_i = {'h': LambdaOp([], p.parse(ast_body[2:])) if ast_body.startswith('0:') else LambdaOp([NameOp('a')], p.parse(ast_body))}
     try:
         if use_names:
             return 'value', p.eval(src, names, ast_names=ast_i, max_ops_evaluated=10 ** 6), None
@@ -80,7 +81,10 @@ def eval_impl(src, names, ast_body, use_names=True):
 def eval_ref(src, names, ast_body):
     p = parser()
     tree = refparse.parse_text(src)       # not the implementation's own tree
-    ast_r = {'h': ('Lambda', [('Name', 'a')], refparse.parse_text(ast_body))} if ast_body else None
+    ast_r = None
+    if ast_body:
+        # '0:' marks a function without parameters, called as h()
+        ast_r = {'h': ('Lambda', [], refparse.parse_text(ast_body[2:])) if ast_body.startswith('0:') else ('Lambda', [('Name', 'a')], refparse.parse_text(ast_body))}
     out, _ = refsem.run(tree, names, ast_names=ast_r)
     return out
 
@@ -106,7 +110,7 @@ def d15_shape(ast_body, renv, ienv):
     if not ast_body:
         return False
     assigned = set()
-    for line in ast_body.split('\n'):
+    for line in ast_body.replace('0:', '', 1).split('\n'):
         parts = line.split()
         if len(parts) >= 2 and parts[1] == '=':
             assigned.add(parts[0])
@@ -313,7 +317,11 @@ def cases(draw):
     ast = None
     if not tiny and n(10) < 4:
         ast = pick(AST_BODIES)
-        src += '\nh(5)\n[x, k]'
+        if n(4) == 0:
+            ast = '0:' + pick(['t = 5\nx = t\nx', 'k = 7\nk', 'x = 99\nx', 'y = [1]\ny', 'len = 3\nlen + 1', 'x = 1\nx += 1\nx', 'q = x\nq'])
+            src += pick(['\nh()\n[x, k]', '\ng0 = v => h()\ng0(1)\n[x, k]', '\n[1, 2] | map(v => h())\n[x, k]', '\ncall(h)\n[x, k]'])
+        else:
+            src += '\nh(5)\n[x, k]'
     mode = 'plain'
     src2 = None
     r = n(10)
